@@ -151,3 +151,22 @@ CC = Unit(['C01', 'C03'], 'taurex.contributions.contribution:Contribution.contri
           post=cc_post, frame=['tau'], native=_cc_native, gen=_cc_gen,
           bounds=[dict(b, nlayers_=b['nlayers'], ngrid_=b['ngrid']) for b in _K1_BOUNDS],
           doc='K2 refinement: base contribute adds K1 with sigma = self.sigma_xsec, ngrid = self._ngrid')
+
+
+# ---------------------------------------------------------------- Sigma-congruence (the rule behind Ctx.congr)
+from pyvc.unit import Lemma
+
+
+def _sum_congruence(c):
+    I, R = z3.IntSort(), z3.RealSort()
+    f, g = z3.Function('f', I, R), z3.Function('g', I, R)
+    a, m, q = z3.Ints('a m q')
+    F = lambda lo, hi: c.Sum(lo, hi, lambda k: f(k))
+    G = lambda lo, hi: c.Sum(lo, hi, lambda k: g(k))
+    agree = lambda lo, hi: z3.ForAll([q], z3.Implies(z3.And(lo <= q, q < hi), f(q) == g(q)))
+    return [('base', [], F(a, a) == G(a, a)),
+            ('step', [a <= m, agree(a, m + 1), z3.Implies(agree(a, m), F(a, m) == G(a, m))], F(a, m + 1) == G(a, m + 1))]
+
+
+Lemma(['C01', 'C02', 'C03', 'C20'], 'sum_congruence', _sum_congruence,
+      doc='sums of pointwise equal terms are equal (induction): justifies the congruence steps used in hint chains')
